@@ -604,6 +604,61 @@ func c16Idle(run *common.Run) {
 		if msg := checkTable(srv.Data, table, m); msg != "" {
 			run.Violation("idle", ei, "a non-forced pass ran on a table that was read a moment ago: "+msg, map[string]any{"engine": engine})
 		}
+		// the same with REAL requests as the only recent activity: the table has been idle for 10 minutes, one client
+		// request arrives (of each kind that reads or writes rows - including reads that deliver nothing, as a client
+		// polling for a row does), then a non-forced pass is attempted: it must leave the table alone
+		wr := func(k string, muts []model.Mut) { _, nr := m.Apply(k, muts, now); m.Commit(k, nr) }
+		one := []model.Mut{{Kind: model.SetCell, Fam: "f", Qual: "w", TS: 3000, Val: "x"}}
+		activities := []struct {
+			name string
+			do   func() bool
+		}{
+			{"ReadRows(all)", func() bool { return drive.ReadAll(srv.Data, table).OK() }},
+			{"ReadRows(one existing key)", func() bool {
+				return drive.ReadRows(srv.Data, &btpb.ReadRowsRequest{TableName: table, Rows: drive.RowSetToProto(model.RowSet{Keys: []string{"k1"}})}).OK()
+			}},
+			{"ReadRows(a key that does not exist)", func() bool {
+				return drive.ReadRows(srv.Data, &btpb.ReadRowsRequest{TableName: table, Rows: drive.RowSetToProto(model.RowSet{Keys: []string{"not-yet"}})}).OK()
+			}},
+			{"ReadRows(filter that blocks everything)", func() bool {
+				return drive.ReadRows(srv.Data, &btpb.ReadRowsRequest{TableName: table, Filter: &btpb.RowFilter{Filter: &btpb.RowFilter_BlockAllFilter{BlockAllFilter: true}}}).OK()
+			}},
+			{"ReadRows(range without rows, limit 1)", func() bool {
+				return drive.ReadRows(srv.Data, &btpb.ReadRowsRequest{TableName: table, RowsLimit: 1, Rows: &btpb.RowSet{RowRanges: []*btpb.RowRange{{StartKey: &btpb.RowRange_StartKeyClosed{StartKeyClosed: []byte("x")}, EndKey: &btpb.RowRange_EndKeyOpen{EndKeyOpen: []byte("y")}}}}}).OK()
+			}},
+			{"MutateRow", func() bool { wr("w1", one); return drive.MutateRow(srv.Data, table, "w1", one).OK() }},
+			{"MutateRows", func() bool {
+				wr("w2", one)
+				st, _, _ := drive.MutateRows(srv.Data, table, []drive.Entry{{Key: "w2", Muts: one}})
+				return st.OK()
+			}},
+			{"CheckAndMutateRow", func() bool {
+				wr("w3", one)
+				st, _ := drive.CheckAndMutate(srv.Data, table, "w3", nil, nil, one)
+				return st.OK()
+			}},
+			{"ReadModifyWriteRow", func() bool {
+				st, row := drive.ReadModifyWrite(srv.Data, table, "w4", []drive.Rule{{Fam: "f", Qual: "w", Append: true, Val: "x"}})
+				if st.OK() && len(row.Cells) == 1 {
+					wr("w4", []model.Mut{{Kind: model.SetCell, Fam: "f", Qual: "w", TS: row.Cells[0].TS, Val: "x"}})
+				}
+				return st.OK()
+			}},
+		}
+		for _, a := range activities {
+			bttest.VerifSetActivity(srv.S, table, 10*time.Minute, 10*time.Minute)
+			if !a.do() {
+				run.Violation("idle", ei, "set-up request failed: "+a.name, nil)
+				continue
+			}
+			bttest.VerifRunGC(srv.S, table, false)
+			if msg := checkTable(srv.Data, table, m); msg != "" {
+				run.Violation("idle", ei, fmt.Sprintf("a non-forced pass ran on a table that a client had used a moment ago (%s; before that the table had been idle for 10 minutes): %s", a.name, msg), map[string]any{"engine": engine, "activity": a.name})
+				break
+			}
+			run.Count("idle_checks", 1)
+			run.Count("passes_attempted_right_after_a_real_client_request", 1)
+		}
 		// idle for 10 minutes: must collect
 		bttest.VerifSetActivity(srv.S, table, 10*time.Minute, 10*time.Minute)
 		bttest.VerifRunGC(srv.S, table, false)
